@@ -280,6 +280,9 @@ TRUSTED_BASE = [
     "is a FUNCTION of the four request objects (calling context, event loop and thread are not arguments: observed by C14's flavour runs)",
     "guardDecideM only (the translated branch is tied node by node for any memo — rel_range_model — and, run from the empty memo at every rel node, "
     "for whole condition trees: eval_condition_rel_tree, C04_eval_condition_closed)",
+    "the obligation proves the whole translation equal to the model's compiledDecide (compile_decide_src: dict policy, rules falsy or a list "
+    "of dicts, dict env with a dict-or-falsy resource, compilerDefault := Src.compile_default, policy.size + 2 < fuel) and set documents "
+    "delegated to Src.decide; nothing of compile / decide is hand-modelled any more",
 ]
 
 
